@@ -7,6 +7,7 @@ from ..consteval import fold_in
 from ..cfg import CFG, cfg_of, fact_key, norm, walk_own, _own_exprs
 from ..locks import regions
 from ..model import AnchorError
+from ..flow import cannot_raise
 from ..mutate import B, M
 from .c03 import fetch_guard_rules
 
@@ -187,6 +188,13 @@ def check(ctx):
                 gh = cfg_of(hf)
                 sets = [n for n, c in gh.find(lambda q: method_call(q, 'set') and norm(q.func.value) == 'self.' + ev)
                         if {k for k in gh.fact_keys_at(n)} <= {fact_key('self.' + ev, True)}]
+            if sets:
+                # ... and nothing that can fail runs in the handler before the event is set (an exception there - say arithmetic on a
+                # timestamp that is still None - leaves the waiter blocked and kills the calling thread)
+                risky = [x for x in gh.nodes if x.kind == 'stmt' and x is not sets[0] and gh.path_avoiding(x, [sets[0]]) is not None and not cannot_raise(x.ast)
+                         and not (isinstance(x.ast, ast.Expr) and any(method_call(c_, 'set') for c_ in walk_own(x.ast)))]
+                ctx.inst('R5', hf, 'nothing-fails-before-release:%s/%s' % (ev, outcome), timed or not risky,
+                         'statements that may raise before %s.set() in %s: %s' % (ev, h, [norm(x.ast)[:70] for x in risky]))
             ctx.inst('R5', f, 'released-by:%s/%s' % (ev, outcome), timed or len(sets) >= 1,
                      'the untimed %s.wait() in %s is not released when the attempt ends with `%s` (handler %s never sets the event): the call blocks forever' % (ev, fn, outcome, h))
     g = cfg_of(S.method('open_link'))
